@@ -182,7 +182,7 @@ def run_once_serial(cfg, *, max_workers=None, prelude=False, around_run=None, wa
     try:
         precache(storage, spec, built, cfg.precached, ctx)
         U.WORLD.reset(epoch=1, faults=[spec.labels[i] for i in cfg.faults], fault_exc=cfg.fault_exc)
-        req = [built.fresh(i) if fr else built.canon[i] for i, fr in cfg.requested]
+        req = [built.get(i, fr) for i, fr in cfg.requested]
         lab = labtech.Lab(storage=storage, runner_backend=backend, continue_on_failure=cfg.cof,
                           notebook=False, context=ctx, max_workers=max_workers)
         import contextlib
